@@ -79,55 +79,7 @@ func (e *bfEnv) eval(x ast.Expr) tri {
 			// the helper's parameters stand for the caller's argument expressions: the atoms, lookups and stores the
 			// rule recognises are phrased over the caller's variables, so expressions met inside the helper are
 			// rewritten (parameter -> argument) before they are shown to the rule's callbacks
-			subst := map[types.Object]ast.Expr{}
-			i := 0
-			if decl.Type.Params != nil {
-				for _, f := range decl.Type.Params.List {
-					for _, nm := range f.Names {
-						if i < len(call.Args) {
-							if o := info.Defs[nm]; o != nil {
-								subst[o] = call.Args[i]
-							}
-						}
-						i++
-					}
-				}
-			}
-			var rw func(x ast.Expr) ast.Expr
-			rw = func(x ast.Expr) ast.Expr {
-				switch t := x.(type) {
-				case *ast.Ident:
-					if o := info.Uses[t]; o != nil {
-						if a, ok := subst[o]; ok {
-							return a
-						}
-					}
-				case *ast.ParenExpr:
-					return &ast.ParenExpr{X: rw(t.X)}
-				case *ast.UnaryExpr:
-					return &ast.UnaryExpr{Op: t.Op, X: rw(t.X)}
-				case *ast.BinaryExpr:
-					return &ast.BinaryExpr{X: rw(t.X), Op: t.Op, Y: rw(t.Y)}
-				case *ast.IndexExpr:
-					return &ast.IndexExpr{X: rw(t.X), Index: rw(t.Index)}
-				case *ast.SelectorExpr:
-					return &ast.SelectorExpr{X: rw(t.X), Sel: t.Sel}
-				case *ast.CallExpr:
-					args := make([]ast.Expr, len(t.Args))
-					for k, a := range t.Args {
-						args[k] = rw(a)
-					}
-					return &ast.CallExpr{Fun: rw(t.Fun), Args: args}
-				}
-				return x
-			}
-			sub := &bfEnv{
-				info:   info,
-				atom:   func(x ast.Expr) (tri, bool) { return e.atom(rw(x)) },
-				lookup: func(x ast.Expr) (tri, bool) { return e.lookup(rw(x)) },
-				store:  func(x ast.Expr) (string, bool) { return e.store(rw(x)) },
-				locals: map[types.Object]tri{}, inline: e.inline, depth: e.depth + 1,
-			}
+			sub := e.subEnv(call, decl, info)
 			var out bfOutcome
 			if sub.run(decl.Body.List, &out) && out.Undecided == "" && out.Returned {
 				return out.Value
@@ -135,6 +87,61 @@ func (e *bfEnv) eval(x ast.Expr) tri {
 		}
 	}
 	return triUnknown
+}
+
+// subEnv builds the environment in which the body of an inlined helper is evaluated: the helper's parameters stand
+// for the caller's argument expressions.
+func (e *bfEnv) subEnv(call *ast.CallExpr, decl *ast.FuncDecl, info *types.Info) *bfEnv {
+	subst := map[types.Object]ast.Expr{}
+	i := 0
+	if decl.Type.Params != nil {
+		for _, f := range decl.Type.Params.List {
+			for _, nm := range f.Names {
+				if i < len(call.Args) {
+					if o := info.Defs[nm]; o != nil {
+						subst[o] = call.Args[i]
+					}
+				}
+				i++
+			}
+		}
+	}
+	var rw func(x ast.Expr) ast.Expr
+	rw = func(x ast.Expr) ast.Expr {
+		switch t := x.(type) {
+		case *ast.Ident:
+			if o := info.Uses[t]; o != nil {
+				if a, ok := subst[o]; ok {
+					return a
+				}
+			}
+		case *ast.ParenExpr:
+			return &ast.ParenExpr{X: rw(t.X)}
+		case *ast.UnaryExpr:
+			return &ast.UnaryExpr{Op: t.Op, X: rw(t.X)}
+		case *ast.BinaryExpr:
+			return &ast.BinaryExpr{X: rw(t.X), Op: t.Op, Y: rw(t.Y)}
+		case *ast.IndexExpr:
+			return &ast.IndexExpr{X: rw(t.X), Index: rw(t.Index)}
+		case *ast.SelectorExpr:
+			return &ast.SelectorExpr{X: rw(t.X), Sel: t.Sel}
+		case *ast.CallExpr:
+			args := make([]ast.Expr, len(t.Args))
+			for k, a := range t.Args {
+				args[k] = rw(a)
+			}
+			return &ast.CallExpr{Fun: rw(t.Fun), Args: args}
+		}
+		return x
+	}
+	sub := &bfEnv{
+		info:   info,
+		atom:   func(x ast.Expr) (tri, bool) { return e.atom(rw(x)) },
+		lookup: func(x ast.Expr) (tri, bool) { return e.lookup(rw(x)) },
+		store:  func(x ast.Expr) (string, bool) { return e.store(rw(x)) },
+		locals: map[types.Object]tri{}, inline: e.inline, depth: e.depth + 1,
+	}
+	return sub
 }
 
 // resolve replaces locals that stand for an expression by that expression (one level, structurally).
@@ -317,6 +324,18 @@ func (e *bfEnv) run(stmts []ast.Stmt, out *bfOutcome) bool {
 		case *ast.ExprStmt:
 			// calls for effect are outside the fragment unless the caller's atom function accepts them
 			if _, ok := e.atom(x.X); !ok {
+				// a helper of the package called for its effect (`markPathAsUsed(set, path)`): its body is run in place
+				if call, isCall := ast.Unparen(x.X).(*ast.CallExpr); isCall && e.inline != nil && e.depth < 3 {
+					if decl, hinfo := e.inline(call); decl != nil && decl.Body != nil && decl.Type.Results == nil {
+						sub := e.subEnv(call, decl, hinfo)
+						var so bfOutcome
+						sub.run(decl.Body.List, &so)
+						if so.Undecided == "" {
+							out.Effects = append(out.Effects, so.Effects...)
+							continue
+						}
+					}
+				}
 				out.Undecided = "statement " + short(exprString(x.X), 40)
 				return true
 			}
